@@ -76,8 +76,10 @@ def table_cases():
                             yield p, q, same_sim, sa, da, ckind, ckw, has_init
 
 
-def run_table_case(case, C: Counter, viol, do_run: bool, cache: bool = True):
+def run_table_case(case, C: Counter, viol, do_run: bool, cache: bool = True, pre_connect: bool = False):
     p, q, same_sim, sa, da, ckind, ckw, has_init = case
+    if same_sim:
+        pre_connect = False
     if same_sim and ckind == "plain":
         return  # an unresolved self-cycle: C06's subject; connect() itself accepts it
     dst = "A" if same_sim else "B"
@@ -86,9 +88,18 @@ def run_table_case(case, C: Counter, viol, do_run: bool, cache: bool = True):
     if has_init:
         conn["init"] = "INIT"
     scn = mk_pair_scn(p, q, same_sim, conn, cache=cache)
+    if pre_connect:
+        # a sequence of calls: first an ordinary accepted connection between the same two simulators (other
+        # ports), then the connection under test - only its acceptance/rejection is judged in this variant
+        for s_ in scn["sims"]:
+            s_["ins"]["t2"] = "trigger"
+            s_["outs"]["e2"] = "nonpersistent"
+        scn["conns"] = [{"src": "A", "se": "e0", "sa": "e2", "dst": "B", "de": "e0", "da": "t2"}, conn]
+        do_run = False
+        C["sequence_cases"] += 1
     probs = expected_problems(sa, da, ckind, has_init, p, q)
     desc = {"src_path": list(p), "dst_path": list(q), "same_simulator": same_sim, "src_attr": sa, "dst_attr": da,
-            "connection": ckind, "initial_data": has_init, "cache": cache}
+            "connection": ckind, "initial_data": has_init, "cache": cache, "after_an_accepted_connection": pre_connect}
     C["connect_cases"] += 1
     C["cache_on" if cache else "cache_off"] += 1
     C["placements_" + placement_kind(p, q)] += 1
@@ -97,7 +108,7 @@ def run_table_case(case, C: Counter, viol, do_run: bool, cache: bool = True):
     if not do_run:
         scn["until"] = 1
     tr = run_case(scn, sched)
-    res = tr.get("connect", [("missing", None)])[0]
+    res = tr.get("connect", [("missing", None)])[-1]
     if res[0] not in ("ok", "ScenarioError"):
         viol("connect_raised_other", case=desc, error=res)
         return
@@ -197,6 +208,9 @@ def run_slice(job: dict) -> dict:
         if k % W != w:
             continue
         run_table_case(case, C, viol, do_run=(k // W) % job["run_every"] == 0, cache=bool((k // W) % 2))
+        if (k // W) % 3 == 0:
+            run_table_case(case, C, viol, do_run=False, cache=True, pre_connect=True)
+            res["evaluations"] += 1
         res["evaluations"] += 1
         res["hashes"].add(H([list(case[0]), list(case[1])] + list(case[2:6]) + [case[7]]) % (1 << 52))
         if len(res["samples"]) < 1 and k % 1301 == 0:
@@ -245,7 +259,8 @@ def replay(rep: dict) -> List[dict]:
         def viol(kind, **kw):
             kw["kind"] = kind
             out.append(kw)
-        run_table_case(case, Counter(), viol, True, cache=d.get("cache", True))
+        run_table_case(case, Counter(), viol, True, cache=d.get("cache", True),
+                       pre_connect=d.get("after_an_accepted_connection", False))
         return out
     if "hier_case" in r:
         return hier_cases(Counter())
@@ -278,7 +293,8 @@ def evidence(m, tier, seed):
         "rule": "(A) every (source attr in {persistent, non-persistent, no output}) x (dest attr in {trigger, "
                 "non-trigger, no input}) x {plain, shifted, shifted=2, weak} x initial data yes/no x every ordered "
                 "pair of 6 group paths (root, same, nested, sibling) plus self-connections, cache on and off, plus "
-                "child entities of another model (hierarchical create()); real connect(), then a "
+                "child entities of another model (hierarchical create()), and the same connection after an accepted "
+                "connection between the same simulators (sequence of calls); real connect(), then a "
                 "run with the source starved to show that a rejected pair left no data-flow, output request, "
                 "trigger or wait; (B) generated scenarios with sibling/nested groups and weak loops under the "
                 "step-set and ordering monitors (labels by group path); distinct_nontrivial = distinct table "
